@@ -25,12 +25,40 @@ Ltac break_match_hyp :=
   | H : context [if ?x then _ else _] |- _ => destruct x eqn:?
   end.
 
-Lemma handler_within_table_lemma cfg s sc t : hnext_ok (loc t) (handler cfg s sc t).
+Lemma table_P14b_allowed : table_P14b = true -> allowed CheckingThoroughDiffs HasMissingDependencies = Some Broken.
+Proof.
+  unfold table_P14b. destruct (allowed CheckingThoroughDiffs HasMissingDependencies) as [x|]; [destruct x|];
+    intros H; try discriminate H; reflexivity.
+Qed.
+
+(* the transition taken by the repair of P14b exists in the table of the tree that has the repair:
+   the premise is checked on every run (the switch passed to the model = table_P14b) *)
+Lemma handler_within_table_lemma cfg s sc t :
+  (fixed_P14b cfg = true -> table_P14b = true) -> hnext_ok (loc t) (handler cfg s sc t).
+Proof.
+  intros Htab. unfold handler, compare_outcome, goto.
+  destruct (loc t) as [st ev].
+  destruct st; destruct ev as [[]|]; cbn [fst snd hnext_ok];
+    repeat break_match; cbn [fst snd hnext_ok]; try exact I; eexists; (split; [reflexivity|]); try reflexivity.
+  all: apply table_P14b_allowed; apply Htab; first [reflexivity|assumption].
+Qed.
+
+(* without the premise: every transition is in the table except possibly the one of the repair *)
+Definition hnext_weak (cfg : config) (from : lstate) (r : hres) : Prop :=
+  match r with
+  | HNext l _ _ => exists e, snd l = Some e /\
+       (allowed (fst from) e = Some (fst l) \/
+        (fixed_P14b cfg = true /\ fst from = CheckingThoroughDiffs /\ e = HasMissingDependencies /\ fst l = Broken))
+  | _ => True
+  end.
+
+Lemma handler_within_table_weak cfg s sc t : hnext_weak cfg (loc t) (handler cfg s sc t).
 Proof.
   unfold handler, compare_outcome, goto.
   destruct (loc t) as [st ev].
-  destruct st; destruct ev as [[]|]; cbn [fst snd hnext_ok];
-    repeat break_match; cbn [fst snd hnext_ok]; try exact I; eexists; split; reflexivity.
+  destruct st; destruct ev as [[]|]; cbn [fst snd hnext_weak];
+    repeat break_match; cbn [fst snd hnext_weak]; try exact I; eexists; (split; [reflexivity|]);
+    first [left; reflexivity | right; repeat split; first [reflexivity|assumption]].
 Qed.
 
 (* ---------------------------------------------------------------------------------------- *)
@@ -791,6 +819,32 @@ Proof.
     rewrite Hf, Hs, E. reflexivity.
 Qed.
 
+(* with the repair of P16 the graph construction recognises every semantic read *)
+Lemma sem_reads_dep_reads_fixed cfg d o : fixed_P16 cfg = true -> sem_reads d o = true -> dep_reads cfg d o = true.
+Proof.
+  intros Hfx. destruct d as [j|p|ms|ms rec|]; cbn [sem_reads dep_reads]; auto; intros H; rewrite Hfx, H.
+  - reflexivity.
+  - apply orb_true_r.
+Qed.
+
+Lemma glob_class_fixed cfg : fixed_P16 cfg = true -> Known_glob_on_absent_output cfg = false.
+Proof.
+  intros Hfx. unfold Known_glob_on_absent_output.
+  destruct (existsb _ (c_steps cfg)) eqn:E; auto. exfalso.
+  apply existsb_exists in E. destruct E as [r [_ E]].
+  apply existsb_exists in E. destruct E as [p [_ E]].
+  apply existsb_exists in E. destruct E as [o [_ E]].
+  apply existsb_exists in E. destruct E as [d [_ E]].
+  apply andb_true_iff in E. destruct E as [E E2]. apply andb_true_iff in E. destruct E as [_ E1].
+  rewrite (sem_reads_dep_reads_fixed _ _ _ Hfx E1) in E2. discriminate.
+Qed.
+
+Lemma edges_cover_all_reads_fixed_lemma cfg r p d o :
+  fixed_P16 cfg = true ->
+  In r (c_steps cfg) -> In p (c_steps cfg) -> In d (s_deps r) -> In o (s_outs p) ->
+  sem_reads d o = true -> In (s_id r, s_id p) (edges cfg).
+Proof. intros Hfx. apply edges_cover_all_reads_lemma. apply glob_class_fixed; exact Hfx. Qed.
+
 (* ---------------------------------------------------------------------------------------- *)
 (* C13: the pool                                                                            *)
 (* ---------------------------------------------------------------------------------------- *)
@@ -978,6 +1032,15 @@ Proof.
   rewrite E in Hf. inversion Hf; subst sc.
   eapply started_after_dependencies_lemma; eauto.
 Qed.
+
+Lemma C10_full_fixed_lemma cfg sch s r p d o tr :
+  fixed_P16 cfg = true ->
+  run cfg sch = Accepted s ->
+  In r (c_steps cfg) -> In p (c_steps cfg) -> In d (s_deps r) -> In o (s_outs p) -> sem_reads d o = true ->
+  tget (thr s) (s_id r) = Some tr -> started (proc tr) = true ->
+  exists tp, tget (thr s) (s_id p) = Some tp /\ is_running (proc tp) = false /\
+             (is_done (loc tp) = true \/ (s_when r = Always /\ is_terminal (loc tp) = true)).
+Proof. intros Hfx. apply C10_semantic_lemma. apply glob_class_fixed; exact Hfx. Qed.
 
 Lemma verdicts_are_final_lemma cfg sch s k sch' :
   run cfg sch = Accepted s -> is_terminal (loc_of s k) = true ->
